@@ -420,7 +420,7 @@ class Translator:
                 self.translate_fn(n)
             except Untranslatable:
                 pass
-            except (KeyError, IndexError, TypeError) as e:   # unexpected AST shape: treat as untranslatable, never crash the check
+            except (KeyError, IndexError, TypeError, AttributeError, ValueError, AssertionError) as e:   # unexpected AST shape: treat as untranslatable, never crash the check
                 self.fns[id(n)] = Untranslatable("unexpected AST shape: %r" % (e,))
                 self.failed[self.tu.qualname(n) + " " + n.get("type", {}).get("qualType", "")] = "unexpected AST shape: %r" % (e,)
 
